@@ -47,26 +47,51 @@ def _stub_bath(cx, sbi, nb, T):
 
 
 @harness("C06", "redfield_rate_matrix",
-         quick=[dict(N=3)], thorough=[dict(N=3)],
+         quick=[dict(N=3), dict(N=4, w=[0.0, 1.0, 1.125, 1.3125], angles=[0.5, 0.9, 0.3])],
+         thorough=[dict(N=3), dict(N=4, w=[0.0, 1.0, 1.125, 1.3125], angles=[0.5, 0.9, 0.3]),
+                   dict(N=4, w=[0.0, 1.0, 1.0625, 1.09375], angles=[1.1, 0.2, 0.7]),
+                   dict(N=5, w=[0.0, 1.0, 1.0625, 1.09375, 1.25], angles=[1.1, 0.2, 0.7, 0.4, 1.3, 0.6])],
          functions=[F_RR + ":RedfieldRateMatrix._set_rates", F_PY + ":ssRedfieldRateMatrix"],
          bound="ground state + 2 sites (3 sites: the branch combinations of the cut-off and uphill tests exceed the time budget) with site-projector system-bath operators; Hamiltonian given by "
                "its eigen-decomposition (block-diagonal rotation, ground state decoupled), T>0, the bath's "
                "Fourier-transformed correlation function an uninterpreted non-negative function of frequency; all "
                "branches of the frequency cut-off and of the uphill/downhill test explored",
          out="numerical value of the correlation function's Fourier transform (FFT/spline accuracy); the 3000 1/cm "
-             "cut-off value itself")
-def redfield_rate_matrix(cx, N):
+             "cut-off value itself; more than two excited states with a symbolic Hamiltonian (the code's own test "
+             "'rate < 0' then needs a sum-of-squares argument per element): the instances with w=..., angles=... "
+             "have three or four excited states with a CONCRETE Hamiltonian (non-symmetric squared eigenvector "
+             "matrix) and quantify over the bath functions and the temperature only")
+def redfield_rate_matrix(cx, N, w=None, angles=None):
     from quantarhei.qm import RedfieldRateMatrix
     from quantarhei.core.units import kB_intK
     nb = N - 1
     ham, sbi, time = build_sbi(cx, N, nb)
-    H, w, S = spectral_hamiltonian(cx, N, block=[[0], list(range(1, N))])
-    ham._data = H.copy()
+    if angles is not None:
+        # concrete Hamiltonian from given exciton energies and a product of plane rotations in the excited block
+        with cx.concrete():
+            Sc = numpy.eye(N)
+            k = 0
+            for i in range(1, N):
+                for j in range(i + 1, N):
+                    G = numpy.eye(N)
+                    G[i, i] = G[j, j] = numpy.cos(angles[k])
+                    G[i, j], G[j, i] = -numpy.sin(angles[k]), numpy.sin(angles[k])
+                    Sc = Sc @ G
+                    k += 1
+            Hc = (Sc * numpy.array(w)[None, :]) @ Sc.T
+            Hc = (Hc + Hc.T) / 2
+            w, S = numpy.linalg.eigh(Hc)
+        H = Hc
+        ham._data = Hc.copy()
+    else:
+        H, w, S = spectral_hamiltonian(cx, N, block=[[0], list(range(1, N))], w_values=w)
+        ham._data = H.copy()
     sbi.KK = _projector_K(cx, N, nb)
     T = cx.real("T", 100.0, 300.0)
     cx.assume(T > 0, "temperature > 0")
+    fs = None
     if cx.sym:
-        _stub_bath(cx, sbi, nb, T)
+        fs = _stub_bath(cx, sbi, nb, T)
         if "golden rule structure" not in cx.notes:
             cx.note("golden rule structure: K[a,b] = sum_n (S_na S_nb)^2 * Ct_n(w_ba) with Ct_n uninterpreted")
     else:
@@ -86,6 +111,46 @@ def redfield_rate_matrix(cx, N):
         for a in range(b + 1, N):
             boltz = numpy.exp(-(w[a] - w[b]) / (kB_intK * T))
             cx.prove_eq("detailed_balance[%d,%d]" % (a, b), K[a, b], K[b, a] * boltz, tol=1e-6)
+    # golden-rule structure of the downhill rates: k(a<-b) = sum_n |c_na|^2 |c_nb|^2 Ct_n(w_b - w_a), a below b
+    Sf = None
+    if not cx.sym or angles is not None:
+        with cx.concrete():
+            Sf = numpy.linalg.eigh(numpy.asarray(H, dtype=float))[1]
+    if not cx.sym:
+        ft = [sbi.CC.get_correlation_function(n, n).get_Fourier_transform() for n in range(nb)]
+    from symnum import core
+    from quantarhei.core.units import cm2int
+    for b in range(2, N):
+        for a in range(1, b):
+            ref = 0
+            if numpy.abs(w[b] - w[a]) > 3000.0 * cm2int:
+                # beyond the (documented, hard-wired) frequency cut-off the rate is set to zero
+                cx.prove_eq("beyond_cutoff_zero[%d<-%d]" % (a, b), K[a, b], 0, tol=1e-12)
+                continue
+            for n in range(nb):
+                if cx.sym:
+                    import z3
+                    om = core.lift(w[b] - w[a])
+                    ct = core.SymR(fs[n](core.z(om.re)))
+                    Sm = Sf if Sf is not None else S
+                    ref = ref + (Sm[n + 1, a] * Sm[n + 1, b]) ** 2 * ct
+                else:
+                    ref = ref + (Sf[n + 1, a] * Sf[n + 1, b]) ** 2 * numpy.real(ft[n].at(w[b] - w[a], approx="spline"))
+            if angles is None:
+                cx.prove_eq("golden_rule_weights[%d<-%d]" % (a, b), K[a, b], ref, tol=1e-6)
+            else:
+                # concrete eigenvectors come from LAPACK in floats (S^-1 is not exactly S^T): the weights agree to
+                # rounding, so the difference is bounded by 1e-9 times the sum of the (non-negative) bath values
+                tot = 0
+                for n in range(nb):
+                    if cx.sym:
+                        tot = tot + core.SymR(fs[n](core.z((core.lift(w[b] - w[a])).re)))
+                    else:
+                        tot = tot + abs(numpy.real(ft[n].at(w[b] - w[a], approx="spline")))
+                diff = K[a, b] - ref
+                cx.prove("golden_rule_weights[%d<-%d]" % (a, b),
+                         (diff <= 1e-9 * tot) & (-diff <= 1e-9 * tot) if cx.sym else
+                         abs(diff) <= 1e-9 * tot + 1e-15)
 
 
 @harness("C06", "foerster_rate_matrix",
